@@ -10,11 +10,12 @@ import (
 )
 
 type DispatchProfile struct {
-	Egress     bool
-	Sign       bool
-	Interleave bool
-	Batchy     bool // single-target routes with concurrency > 1 (micro-batches), slow and hanging targets
-	Backends   []string
+	Egress      bool
+	Sign        bool
+	Interleave  bool
+	StoreFaults bool // the store refuses single calls of the dispatcher (settlements, attempt records)
+	Batchy      bool // single-target routes with concurrency > 1 (micro-batches), slow and hanging targets
+	Backends    []string
 }
 
 var biasedStatuses = []int{200, 200, 201, 204, 299, 199, 100, 101, 300, 301, 304, 399, 400, 401, 404, 407, 408, 409, 428, 429, 430, 499, 500, 502, 503, 599}
@@ -236,6 +237,10 @@ func GenDispatchProgram(t *rapid.T, prof DispatchProfile) *Program {
 	}
 	for i := 0; i < n; i++ {
 		k := rapid.IntRange(0, 19).Draw(t, "kind")
+		if prof.StoreFaults && rapid.IntRange(0, 9).Draw(t, "storefault?") == 0 {
+			p.Steps = append(p.Steps, Step{Op: "storefault", Batch: rapid.IntRange(1, 2).Draw(t, "sf.n"),
+				Reason: rapid.SampledFrom([]string{"AckBatch", "NackBatch", "MarkDeadBatch", "Ack", "Nack", "MarkDead", "RecordAttempt", "AckBatch", "NackBatch"}).Draw(t, "sf.method")})
+		}
 		switch {
 		case k < 5:
 			p.Steps = append(p.Steps, Step{Op: "publish", Batch: rapid.IntRange(0, 1).Draw(t, "route"), Pad: rapid.IntRange(0, 3).Draw(t, "extra") == 0})
@@ -276,8 +281,8 @@ func init() {
 			Quick:      quick, Thorough: thorough,
 		})
 	}
-	reg("C06", DispatchProfile{Backends: both, Interleave: true},
-		"deliver routes (1-3 targets, concurrency 1-4, generated retry settings), per-target behaviour scripts (status 100-599 biased to boundaries, refused, reset, response lost, hang to the deadline, DNS failure, recovery after failures), worker cycles sequential and interleaved with stalls; oracle: independent classification table per delivery, settlement = recorded outcome, nack delay within [d(1-j), d(1+j)], sends per cycle <= max+1, one attempt record per delivery, and after faults stop every message ends delivered or dead", 1200, 50000)
+	reg("C06", DispatchProfile{Backends: both, Interleave: true, StoreFaults: true},
+		"deliver routes (1-3 targets, concurrency 1-4, generated retry settings), per-target behaviour scripts (status 100-599 biased to boundaries, refused, reset, response lost, hang to the deadline, DNS failure, recovery after failures), worker cycles sequential and interleaved with stalls; oracle: independent classification table per delivery, settlement = recorded outcome, nack delay within [d(1-j), d(1+j)], sends per cycle <= max+1, one attempt record per delivery, and after faults stop every message ends delivered or dead; store faults: single calls of the dispatcher (batch and single settlements, attempt records) are refused by the store at drawn points - every recorded delivery outcome still reaches the store through a settlement call unless the call of last resort was itself refused (C06.settle.dropped)", 1200, 50000)
 	reg("C16", DispatchProfile{Backends: both, Egress: true},
 		"generated egress policies (https_only, redirects, rebind protection, allow/deny with exact/*/*.domain/CIDR) x target and redirect URLs (schemes, userinfo, ports, IP literals incl. v6 and v4-mapped, trailing dots, case) x resolver answers (private/public mixes, answers changing between lookups, failures); oracle: independent policy predicate over every request that reached simnet including each redirect hop, under the answers the resolver gave for that check; denied delivery sent nothing and is dead as policy_denied", 1200, 50000)
 	reg("C17", DispatchProfile{Backends: both, Sign: true},
